@@ -20,20 +20,32 @@ Definition zrow (r : list nat) : list Z := map zn r.
 Fixpoint zdot (a : list Z) (r : list nat) : Z :=
   match a, r with x :: a', y :: r' => x * zn y + zdot a' r' | _, _ => 0 end.
 (* the objective of the replay: an integer-valued function of the multi-index, exact in binary64 *)
-Definition gfun (a b : list Z) (p : Z) (r : list nat) : float :=
+Definition gfun0 (a b : list Z) (p : Z) (r : list nat) : float :=
   F_ofZ (1 + ((zdot a r + (zdot b r) * (zdot b r)) mod p)).
+(* degenerate objectives: the function vanishes exactly outside the box lo <= r < hi (delta tensor, block-sparse
+   tensor, identically zero, zero unless i_0 = 0) *)
+Fixpoint inbox (lo hi r : list nat) : bool :=
+  match lo, hi, r with
+  | l :: lo', h :: hi', x :: r' => Nat.leb l x && Nat.ltb x h && inbox lo' hi' r'
+  | _, _, _ => true
+  end.
+Definition gfun (box : option (list nat * list nat)) (a b : list Z) (p : Z) (r : list nat) : float :=
+  match box with
+  | Some (lo, hi) => if inbox lo hi r then gfun0 a b p r else F_ofZ 0
+  | None => gfun0 a b p r
+  end.
 Definition fl (x : float) : list Z := let (m, e) := F_show x in [m; e].
 Definition oflt (o : option float) : option float := o.
 Definition run_case (sh : list (nat * nat * nat)) (m : option nat) (e : option float) (nswp : option nat)
     (evld : option float) (hasI hasy : bool) (drmin drmax scale : nat) (cache : option (list (list nat * float)))
     (kNone : option nat) (kcb : option (option nat)) (picks : list (list nat)) (er ac ad : list float)
-    (a b : list Z) (p : Z) (fuel : nat) : list (list (list Z)) :=
+    (a b : list Z) (p : Z) (box : option (list nat * list nat)) (fuel : nat) : list (list (list Z)) :=
   let Y0 := map (fun s => match s with (r1, n, r2) => mkc r1 n r2 tt end) sh in
   let cf := mkcfg Y0 m e nswp evld hasI hasy drmin drmax scale cache in
   let f := fun (k : nat) (I : rows) =>
      match kNone with
-     | Some k0 => if Nat.eqb k k0 then None else Some (map (gfun a b p) I)
-     | None => Some (map (gfun a b p) I) end in
+     | Some k0 => if Nat.eqb k k0 then None else Some (map (gfun box a b p) I)
+     | None => Some (map (gfun box a b p) I) end in
   let cb := match kcb with None => None
             | Some None => Some (fun _ : nat => false)
             | Some (Some s0) => Some (fun s : nat => Nat.eqb s s0) end in
@@ -78,6 +90,17 @@ def norm_model(v):
 def gfun(a, b, p, I):
     I = np.asarray(I, dtype=np.int64)
     return (1 + ((I @ np.array(a, dtype=np.int64) + (I @ np.array(b, dtype=np.int64)) ** 2) % p)).astype(float)
+
+
+def objective(cfg, I):
+    """the objective of a configuration: gfun, multiplied by the indicator of the box lo <= i < hi if cfg['box'] is set"""
+    I = np.asarray(I, dtype=np.int64).reshape(-1, len(cfg['ns']))
+    y = gfun(cfg['a'], cfg['b'], cfg['p'], I)
+    box = cfg.get('box')
+    if box is not None:
+        lo, hi = np.array(box[0], dtype=np.int64), np.array(box[1], dtype=np.int64)
+        y = np.where(((I >= lo) & (I < hi)).all(axis=1), y, 0.0)
+    return y
 
 
 class TooLong(Exception):
@@ -131,8 +154,8 @@ def run_impl(tn, cfg, objective=None, Y0=None, max_calls=4000):
         rec['requests'].append(np.asarray(I).tolist())
         return saved['_func_eval'](f, I, info, cache)
 
-    a, b, p = cfg['a'], cfg['b'], cfg['p']
-    g = objective or (lambda I: gfun(a, b, p, I))
+    cfg_ = cfg
+    g = objective or (lambda I: globals()['objective'](cfg_, I))
     ncall = [0]
 
     def f(I):
@@ -228,7 +251,8 @@ def coq_term(cfg, o, fuel=None):
             f"{opt(cfg['e_vld'], flit)} {'true' if cfg['hasI'] else 'false'} {'true' if cfg['hasy'] else 'false'} "
             f"{nat(cfg['dr_min'])} {nat(cfg['dr_max'])} {nat(cfg['scale'])} {cache} {opt(cfg.get('kNone'), nat)} {kcbs} "
             f"{picks} {fl(rec['er'])} {fl([float('nan')] + rec['ac'])} {fl(rec['ad'])} "
-            f"{C.zlist(cfg['a'])} {C.zlist(cfg['b'])} {int(cfg['p'])} {nat(fuel)}")
+            f"{C.zlist(cfg['a'])} {C.zlist(cfg['b'])} {int(cfg['p'])} "
+            f"{opt(cfg.get('box'), lambda bx: '(' + natl(bx[0]) + ', ' + natl(bx[1]) + ')')} {nat(fuel)}")
 
 
 def impl_result(cfg, o):
@@ -318,6 +342,64 @@ def gen_cfg(rng, small=False, **force):
     return cfg
 
 
+def gen_degen(rng, fam=None, d=None, cache=None, dr_min=None, budget=None):
+    """degenerate but valid objectives whose sampled fibres are exactly zero: delta tensor (one non-zero entry),
+    block-sparse tensor, identically zero, zero unless i_0 = 0; with and without cache, dr_min in {0, 1, 2},
+    d in 2..4, sweep-bounded or with a small budget.  Here maxvol / maxvol_rect work on unfoldings with zero rows;
+    they must still return pairwise distinct rows (no index requested twice in a batch)."""
+    fam = fam or rng.choice(['delta', 'block', 'zero', 'i0'])
+    d = d or rng.choice([2, 3, 3, 4])
+    ns = [rng.randint(2, 4 if d < 4 else 3) for _ in range(d)]
+    if fam == 'delta':
+        lo = [rng.randrange(n) for n in ns]
+        hi = [x + 1 for x in lo]
+    elif fam == 'block':
+        lo = [rng.randrange(n) for n in ns]
+        hi = [rng.randint(x + 1, n) for x, n in zip(lo, ns)]
+    elif fam == 'zero':
+        lo, hi = [0] * d, [0] * d
+    else:
+        lo, hi = [0] * d, [1] + ns[1:]
+    dr_min = rng.choice([0, 1, 1, 2]) if dr_min is None else dr_min
+    dr_max = max(dr_min, rng.choice([1, 1, 2]))
+    cfg = dict(ns=ns, r0=[1] + [rng.randint(1, 2) for _ in range(d - 1)] + [1], seedY=rng.randrange(10 ** 6),
+               m=None, e=None, nswp=rng.choice([1, 2, 3]), e_vld=None, hasI=False, hasy=False, dr_min=dr_min,
+               dr_max=dr_max, scale=rng.choice([5, 5, 1]), cache=([] if rng.random() < 0.6 else None) if cache is None
+               else ([] if cache else None), kNone=None, kcb=None,
+               a=[rng.randint(0, 5) for _ in range(d)], b=[rng.randint(0, 3) for _ in range(d)],
+               p=rng.choice([5, 7, 11]), box=[lo, hi], kind='degen:' + fam)
+    if budget is None:
+        budget = rng.random() < 0.35
+    if budget:
+        cfg['m'] = rng.choice([3, 8, 20, 50, 120])
+        cfg['nswp'] = rng.choice([None, 3])
+    if rng.random() < 0.15:
+        cfg['hasI'] = cfg['hasy'] = True
+    return cfg
+
+
+def gen_prio(rng):
+    """configurations in which several criteria of _info_appr are met by the same sweep: full initial ranks (the cross
+    interpolation is exact after one sweep, so e_vld drops to ~1e-16, far below its threshold, while the random
+    initial tensor is far above it), a huge e threshold, optionally nswp = 1 -> exercises the priority e_vld > e > nswp"""
+    d = rng.choice([2, 2, 3])
+    ns = [rng.randint(2, 3) for _ in range(d)]
+    prod = lambda xs: int(np.prod(xs)) if xs else 1
+    r0 = [1] + [min(prod(ns[:k]), prod(ns[k:])) for k in range(1, d)] + [1]
+    which = rng.choice(['e+e_vld', 'e+e_vld+nswp', 'e+nswp', 'e_vld+nswp'])
+    cfg = dict(ns=ns, r0=r0, seedY=rng.randrange(10 ** 6), m=None, e=None, nswp=4, e_vld=None,
+               hasI=True, hasy=True, dr_min=0, dr_max=0, scale=5, cache=rng.choice([None, []]), kNone=None,
+               kcb=rng.choice([None, -1]), a=[rng.randint(0, 5) for _ in range(d)], b=[rng.randint(0, 3) for _ in range(d)],
+               p=rng.choice([5, 7]), kind='prio:' + which)
+    if 'e+' in which or which.startswith('e+'):
+        cfg['e'] = 1.0e3
+    if 'e_vld' in which:
+        cfg['e_vld'] = 0.5
+    if 'nswp' in which:
+        cfg['nswp'] = 1
+    return cfg
+
+
 def describe(cfg):
     return {k: cfg[k] for k in ('ns', 'r0', 'seedY', 'm', 'e', 'nswp', 'e_vld', 'hasI', 'hasy', 'dr_min', 'dr_max',
-                                'scale', 'cache', 'kNone', 'kcb', 'a', 'b', 'p')}
+                                'scale', 'cache', 'kNone', 'kcb', 'a', 'b', 'p')} | {'box': cfg.get('box')}
